@@ -2,7 +2,9 @@
 // `k > n` to the end of the loops that turn the mixed-radix digits of i into a permutation.  Decided, for every
 // (n, i, k): no underflow / overflow / division by zero / index out of range, the answer is "i too large" exactly
 // when i is not below the number n (n-1) .. (n-k+1) of k-permutations, and otherwise k indices below n are handed
-// to the result.  NOT decided: that they are pairwise distinct and are the i-th permutation in lexicographic order.
+// to the result.  For C10: every iteration of the digit loop and of the inner fix-up loop draws one permit of the
+// call's search budget first, so under a search limit L a call ends within L such iterations or in MaximumSearch.
+// NOT decided: that they are pairwise distinct and are the i-th permutation in lexicographic order.
 #![allow(unused_imports, dead_code, unused_variables, unused_mut)]
 use vstd::prelude::*;
 use std::rc::Rc;
@@ -75,7 +77,27 @@ impl VRev {
 pub assume_specification<T> [ <[T]>::reverse ] (s: &mut [T])
     ensures final(s)@ == old(s)@.reverse();
 
-pub struct Rt;
+/// the search budget of one native call (`RuntimeLimits::search_iter`, under contract in V-budget): with a limit L
+/// exactly L permits, then exactly one Err(MaximumSearch), then the end; without a limit endless permits
+pub struct SearchIt { pub limit: Ghost<Option<nat>>, pub drawn: Ghost<nat>, pub failed: Ghost<bool> }
+impl SearchIt {
+    #[verifier::external_body]
+    pub fn next(&mut self) -> (r: Option<RuntimeResult<()>>)
+        ensures
+            final(self).limit@ == old(self).limit@, final(self).drawn@ == old(self).drawn@ + 1,
+            !old(self).failed@ ==> (r matches Some(x) && match old(self).limit@ {
+                Some(l) => (x is Ok <==> old(self).drawn@ < l),
+                None => x is Ok,
+            }),
+            final(self).failed@ == (old(self).failed@ || !(r matches Some(Ok(_)))),
+    { unimplemented!() }
+}
+pub struct Limits { pub search: Ghost<Option<nat>> }
+impl Limits {
+    #[verifier::external_body]
+    pub fn search_iter(&self) -> (r: SearchIt) ensures r.limit@ == self.search@, r.drawn@ == 0, !r.failed@ { unimplemented!() }
+}
+pub struct Rt { pub limits: Limits }
 impl Rt {
     #[verifier::external_body]
     pub fn clone(&self) -> (r: Rt) { unimplemented!() }
